@@ -473,7 +473,7 @@ func htFuncMap(c *Ctx, a *flAgg) map[string]*ssa.Function {
 	if fn == nil {
 		return out
 	}
-	for _, b := range fn.Blocks {
+	for _, b := range blocksWithHelpers(fn) {
 		for _, in := range b.Instrs {
 			mu, ok := in.(*ssa.MapUpdate)
 			if !ok || !namedIs(mu.Map.Type(), "html/template", "FuncMap") && !namedIs(mu.Map.Type(), "text/template", "FuncMap") {
@@ -818,7 +818,7 @@ func funcMapNames(c *Ctx) map[string]interface{} {
 	if fn == nil {
 		return out
 	}
-	for _, b := range fn.Blocks {
+	for _, b := range blocksWithHelpers(fn) {
 		for _, in := range b.Instrs {
 			if mu, ok := in.(*ssa.MapUpdate); ok {
 				if k, ok := mu.Key.(*ssa.Const); ok && k.Value != nil && k.Value.Kind() == constant.String {
@@ -827,5 +827,32 @@ func funcMapNames(c *Ctx) map[string]interface{} {
 			}
 		}
 	}
+	return out
+}
+
+// blocksWithHelpers: the blocks of fn and of the helpers outside the pinned
+// vocabulary it calls (transitively): lines extracted into a helper still
+// belong to the function a rule is anchored in.
+func blocksWithHelpers(fn *ssa.Function) []*ssa.BasicBlock {
+	var out []*ssa.BasicBlock
+	seen := map[*ssa.Function]bool{}
+	var visit func(f *ssa.Function, depth int)
+	visit = func(f *ssa.Function, depth int) {
+		if f == nil || seen[f] || f.Blocks == nil || depth > 3 {
+			return
+		}
+		seen[f] = true
+		out = append(out, f.Blocks...)
+		for _, b := range f.Blocks {
+			for _, in := range b.Instrs {
+				if ci, ok := in.(ssa.CallInstruction); ok {
+					if cal := ci.Common().StaticCallee(); cal != nil && defaultInline(cal) {
+						visit(cal, depth+1)
+					}
+				}
+			}
+		}
+	}
+	visit(fn, 0)
 	return out
 }
